@@ -315,6 +315,13 @@ func (e *Engine) compareTwins(hd *wire.BlockHeader, classes []string) {
 			fmt.Sprintf("original answered %q, loaded answered %q for %s", classes[0], classes[1], hd.BlockHash()))
 		return
 	}
+	if a.Snap.Work == b.Snap.Work && a.Snap.Last != b.Snap.Last {
+		// equal work: which of the tied tips is reported is not specified; the twins are no longer
+		// comparable (depth rule, announcements) from here on
+		a.M.TwinDiverged = true
+		e.Stats["twin_tie_break_differs"]++
+		return
+	}
 	if a.Snap.Last != b.Snap.Last || a.Snap.Work != b.Snap.Work || a.Snap.Height != b.Snap.Height {
 		e.fail("C11", "loaded-treats-submission-like-original", "twin-tip-differs/after-"+classes[0],
 			fmt.Sprintf("after submission: original tip %s h=%d work=%s, loaded tip %s h=%d work=%s",
